@@ -41,6 +41,29 @@ TRUSTED_BASE = [
 ]
 
 
+def quote(s):
+    """JSON-style escaping of the S-expression line protocol (mirrors harness/src/lib.rs `quote` and ErgVerif.Sexp)"""
+    o = ['"']
+    for c in s:
+        n = ord(c)
+        if c == '"':
+            o.append('\\"')
+        elif c == "\\":
+            o.append("\\\\")
+        elif c == "\n":
+            o.append("\\n")
+        elif c == "\t":
+            o.append("\\t")
+        elif c == "\r":
+            o.append("\\r")
+        elif n < 32 or n >= 127:
+            o.append("\\u%04x" % n if n < 65536 else "\\U%06x" % n)
+        else:
+            o.append(c)
+    o.append('"')
+    return "".join(o)
+
+
 def log(msg):
     sys.stderr.write(msg + "\n")
     sys.stderr.flush()
